@@ -250,8 +250,8 @@ func init() {
 			c.Faults.TornEvery = rapid.SampledFrom([]int{1, 2, 3, 5}).Draw(t, "torn_every")
 			return c
 		},
-		Run:  func(t *testing.T, c *Case, keep bool) Outcome { return ExecuteCrash(t, c, p9, keep) },
-		Rule: "short histories (tiny memtables, values across the value threshold so that both WAL and value log are appended, flushes so that the MANIFEST is appended, encrypted or not); right after every k-th append (WAL entry, value-log entry, MANIFEST change set) the directory is imaged and the record just written is cut at every byte (records <=48 B) or at the first/last 20 bytes + 12 sampled interior offsets, each cut once with the remainder zero-filled and once with the file ending at the cut; every such image is re-opened with the real code: Open must succeed, the state must be a commit prefix containing every acknowledged commit, and no value that was never written may be returned. evaluations = histories; torn images verified are in probes",
+		Run:    func(t *testing.T, c *Case, keep bool) Outcome { return ExecuteCrash(t, c, p9, keep) },
+		Rule:   "short histories (tiny memtables, values across the value threshold so that both WAL and value log are appended, flushes so that the MANIFEST is appended, encrypted or not); right after every k-th append (WAL entry, value-log entry, MANIFEST change set) the directory is imaged and the record just written is cut at every byte (records <=48 B) or at the first/last 20 bytes + 12 sampled interior offsets, each cut once with the remainder zero-filled and once with the file ending at the cut; every such image is re-opened with the real code: Open must succeed, the state must be a commit prefix containing every acknowledged commit, and no value that was never written may be returned. evaluations = histories; torn images verified are in probes",
 		Assume: []string{"a torn append is modelled at byte granularity on the record reported by the vhook.IO line next to the memcpy/write"},
 	})
 	// C10 SyncWrites vs power loss
@@ -270,8 +270,8 @@ func init() {
 			c.Faults.Power = true
 			return c
 		},
-		Run:  func(t *testing.T, c *Case, keep bool) Outcome { return ExecuteCrash(t, c, p10, keep) },
-		Rule: "as C08 with SyncWrites=true; at EVERY persistence event a power-loss image is built from the durable-state tracker (per file: content at its last msync/fsync/O_DSYNC write; per directory: the entries present at its last directory fsync; a linked but never-synced file appears zero-filled at its creation size) and re-opened with the real code; oracles as C08 with acknowledged = Commit returned nil / callback got nil. evaluations = histories; the number of verified power-loss images is in probes",
+		Run:    func(t *testing.T, c *Case, keep bool) Outcome { return ExecuteCrash(t, c, p10, keep) },
+		Rule:   "as C08 with SyncWrites=true; at EVERY persistence event a power-loss image is built from the durable-state tracker (per file: content at its last msync/fsync/O_DSYNC write; per directory: the entries present at its last directory fsync; a linked but never-synced file appears zero-filled at its creation size) and re-opened with the real code; oracles as C08 with acknowledged = Commit returned nil / callback got nil. evaluations = histories; the number of verified power-loss images is in probes",
 		Assume: []string{"strict power-loss model as the property states it: only explicitly synced file contents and directory entries covered by a directory fsync survive", "fd-file syncs (MANIFEST rewrite, KEYREGISTRY) are reported by vhook lines next to the call; the MANIFEST append fsync is reported through the syncFunc seam; mmap-file syncs are reported from inside the instrumented ristretto copy"},
 	})
 	// C04 own writes
